@@ -162,4 +162,16 @@ PROPS["C06"] = {
     "assumptions": ["identifiers are compared ASCII-case-insensitively (strings.EqualFold's Unicode folding of non-ASCII identifiers is compared in the tie, not modelled)"],
 }
 
+PROPS["C09"] = {
+    "module": "CqlVerif.Props.C09",
+    "gens": ["lexer"],
+    "streams": [{"name": "handled", "quick": 2000, "thorough": 100000}, {"name": "route", "quick": 300, "thorough": 10000}],
+    "shrink": False,
+    "claim": "Lean theorems non_select_forwarded, use_handled, handled_select_iff (handled <=> effective keyspace is system and the table is virtualised, under CQL identifier rules), foreign_qualifier_forwarded over Model/Select for every token stream and current keyspace; tied to parser.IsQueryHandled by the handled stream over the product {current keyspace} x {qualifier} x {table} x {selectors} x {trailing clauses} x {statement kinds} with ground truth by construction, and end to end by the route stream (QUERY, PREPARE and EXECUTE of the returned id: did the statement reach a backend)",
+    "note": "trusted: Lean kernel, regenerated scanner tables + interpreter, hand-written Select model, the generator's ground truth; statements outside the generated family are covered by the differential stream only",
+    "rule": "handled: 10 current keyspaces x 10 qualifiers x 20 tables x 11 selector lists x 6 trailing clauses (every 9th combination quick, all 132000 thorough) + USE forms + every other statement kind + generator statements; compared: handled, error, statement kind, table, selector count. route: real proxy, 18 fixed + generated cases; distinct = distinct (keyspace, text) pairs",
+    "trusted_base": [KERNEL, DRIVER, HARNESS, "Gen/LexTables.lean regenerated", "Model/Select.lean hand-written"],
+    "assumptions": ["identifiers are ASCII"],
+}
+
 NOT_APPLICABLE = {}
